@@ -3,6 +3,7 @@
 -/
 import MudExec.Proto
 import MudModel.SpawnStack
+import MudModel.Clone
 
 namespace Mud.Exec
 open Mud Mud.Spawn
@@ -73,6 +74,15 @@ def opTensor : Op := do
   let t := tensor rules
   pure (oN t.length :: t.flatMap (fun pw => oList pw.1 ++ [oF pw.2]))
 
-def tableF : List (String × Op) := [("stack", opStack), ("tensor", opTensor)]
+/-- `draws k nz z.. ns s..` → the first k thresholds a trajectory uses -/
+def opDraws : Op := do
+  let k ← nat
+  let nz ← nat
+  let zl ← listOf nz flt
+  let ns ← nat
+  let st ← listOf ns flt
+  pure (oList (Clone.drawMany k zl st))
+
+def tableF : List (String × Op) := [("stack", opStack), ("tensor", opTensor), ("draws", opDraws)]
 
 end Mud.Exec
